@@ -60,9 +60,11 @@ struct Worker {
 
 impl Worker {
     fn new<J: Task>(receiver: Arc<Mutex<mpsc::Receiver<J>>>) -> Self {
+        #[cfg(khttp_verif)]
+        let wid = crate::verif::alloc_worker_id();
         let thread = thread::spawn(move || {
             #[cfg(khttp_verif)]
-            let wid = crate::verif::register_worker();
+            crate::verif::set_current_worker(wid);
             loop {
                 let msg = {
                     let rx = receiver.lock().unwrap();
